@@ -272,8 +272,8 @@ func c10ParseTrace(text string, dir string) c10Trace {
 	var tr c10Trace
 	dir = filepath.Clean(dir)
 	pending := map[string]string{}
-	dirfds := map[string]bool{}    // descriptors open on dir
-	filefds := map[string]int{}    // descriptor -> normalised number, files of dir opened for writing
+	dirfds := map[string]bool{} // descriptors open on dir
+	filefds := map[string]int{} // descriptor -> normalised number, files of dir opened for writing
 	nextfd := 0
 	inWindow := false
 	mkdirSeen := false
@@ -530,8 +530,8 @@ type c10Run struct {
 	Target string // file name it is expected under
 	Tag    string
 	Ndev   int
-	Limit  int64  // -1: none
-	Hook   int    // index into c10Hooks; 5 = none
+	Limit  int64 // -1: none
+	Hook   int   // index into c10Hooks; 5 = none
 	Strace bool
 }
 
@@ -544,8 +544,11 @@ type c10Result struct {
 	Err    string
 }
 
+var c10Children int
+
 func c10Exec(self string, scratch string, run c10Run) c10Result {
 	var res c10Result
+	c10Children++
 	res.L0, res.Dir0 = c10Listing(run.Dir)
 	res.S0 = c10Scan(run.Dir)
 	args := []string{"c10-write", "-dir", run.Dir, "-name", run.Name, "-tag", run.Tag, "-ndev", strconv.Itoa(run.Ndev), "-limit", strconv.FormatInt(run.Limit, 10)}
@@ -691,8 +694,12 @@ func c10OptN(limit int64) string {
 }
 
 func c10Desc(kind string, run c10Run, fx c10Fix, res c10Result, newLen int) map[string]interface{} {
+	prev := false
+	for _, e := range res.L0 {
+		prev = prev || e.Name == run.Target
+	}
 	d := map[string]interface{}{
-		"kind": kind, "name": run.Name, "target": run.Target, "previous_file": fx.Prev, "dir_missing": fx.Missing, "stale_tmp_files": fx.StaleTmp,
+		"kind": kind, "name": run.Name, "target": run.Target, "previous_file": prev, "dir_missing": !res.Dir0, "tag": run.Tag,
 		"directory_at_target": fx.DirTarget, "new_len": newLen, "ret(0 ok,1 error,77 crashed)": res.Ret,
 		"dir_before": c10ListingDesc(res.L0), "dir_after": c10ListingDesc(res.L1), "scan_before": c10ScanDesc(res.S0), "scan_after": c10ScanDesc(res.S1),
 	}
@@ -927,6 +934,13 @@ func genC10(r *hx.R, tier string, scratch string) (*hx.Suite, error) {
 			return c10Result{}, err
 		}
 		res := c10Exec(self, scratch, run)
+		for try := 0; try < 2 && prepare && run.Strace && res.Trace.Problem != ""; try++ {
+			// an uninterpretable trace (strace hiccup): do the whole attempt again
+			if err := c10Prepare(run.Dir, run.Name, fx); err != nil {
+				return c10Result{}, err
+			}
+			res = c10Exec(self, scratch, run)
+		}
 		if run.Strace && res.Trace.Problem != "" {
 			return res, fmt.Errorf("strace: %s", res.Trace.Problem)
 		}
@@ -980,9 +994,6 @@ func genC10(r *hx.R, tier string, scratch string) (*hx.Suite, error) {
 	// ---- (i) strace, undisturbed
 	for _, name := range names {
 		for _, fx := range []c10Fix{{}, {Prev: true, PrevNdev: 2}, {Missing: true}, {Prev: true, PrevNdev: 5, StaleTmp: true}} {
-			if !thorough && name == "vendor" && (fx.Missing || fx.StaleTmp) {
-				continue
-			}
 			run := c10Run{Dir: newDir(), Name: name, Tag: "new", Ndev: 1 + r.Intn(4), Limit: -1, Hook: 5, Strace: true}
 			if _, err := attempt("strace", run, fx, true, mkTrace(-1, false)); err != nil {
 				return nil, err
@@ -1064,7 +1075,7 @@ func genC10(r *hx.R, tier string, scratch string) (*hx.Suite, error) {
 				}
 			} else {
 				offs = []int64{0, int64(len(newData)) - 1}
-				for len(offs) < 8 {
+				for len(offs) < 14 {
 					offs = append(offs, int64(1+r.Intn(len(newData)-1)))
 				}
 			}
@@ -1083,12 +1094,49 @@ func genC10(r *hx.R, tier string, scratch string) (*hx.Suite, error) {
 			}
 		}
 	}
-	// ---- (iv) concurrent readers
-	dur := 1200 * time.Millisecond
-	rounds := [][2]interface{}{{"vendor.json", true}, {"vendor.yaml", false}}
+	// ---- random histories in one directory: undisturbed writes, crashes and write failures of Specs of varying size follow one another
+	nh, steps := 4, 8
 	if thorough {
-		dur = 5 * time.Second
-		rounds = append(rounds, [2]interface{}{"vendor.json", false}, [2]interface{}{"vendor.yaml", true}, [2]interface{}{"vendor", true})
+		nh, steps = 16, 14
+	}
+	for h := 0; h < nh; h++ {
+		name := hx.Pick(r, names)
+		dir := newDir()
+		fx := c10Fix{Prev: r.Chance(0.5), PrevNdev: 1 + r.Intn(5), StaleTmp: r.Chance(0.3)}
+		if err := c10Prepare(dir, name, fx); err != nil {
+			return nil, err
+		}
+		for st := 0; st < steps; st++ {
+			run := c10Run{Dir: dir, Name: name, Tag: fmt.Sprintf("h%d-%d", h, st), Ndev: 1 + r.Intn(6), Limit: -1, Hook: 5}
+			var err error
+			switch r.Intn(4) {
+			case 0:
+				run.Strace = true
+				_, err = attempt("history-strace", run, fx, false, mkTrace(-1, false))
+			case 1:
+				run.Hook = r.Intn(5)
+				_, err = attempt("history-crash", run, fx, false, mkCrash(run.Hook, false))
+			case 2:
+				newData, cerr := c10Complete(scratch, name, run.Tag, run.Ndev)
+				if cerr != nil {
+					return nil, cerr
+				}
+				run.Limit = int64(r.Intn(len(newData) + 1))
+				_, err = attempt("history-write-failure", run, fx, false, mkLimit(run.Limit))
+			default:
+				_, err = attempt("history-write", run, fx, false, mkLimit(-1))
+			}
+			if err != nil {
+				return nil, err
+			}
+		}
+	}
+	// ---- (iv) concurrent readers
+	dur := 2500 * time.Millisecond
+	rounds := [][2]interface{}{{"vendor.json", true}, {"vendor.yaml", false}, {"vendor", true}}
+	if thorough {
+		dur = 8 * time.Second
+		rounds = append(rounds, [2]interface{}{"vendor.json", false}, [2]interface{}{"vendor.yaml", true})
 	}
 	for i, rd := range rounds {
 		c, err := c10Concurrent(scratch, i, rd[0].(string), rd[1].(bool), 2, dur)
@@ -1097,6 +1145,6 @@ func genC10(r *hx.R, tier string, scratch string) (*hx.Suite, error) {
 		}
 		s.Add(c)
 	}
-	s.Extra = map[string]interface{}{"x_child_processes": idx, "exhaustive": false}
+	s.Extra = map[string]interface{}{"x_child_processes": c10Children, "x_directories": idx, "exhaustive": false}
 	return s, nil
 }
